@@ -14,6 +14,12 @@ Assumed contracts of what is *not* plumpy (trusted base, exercised through the r
   copy) and runs ready callbacks of the same loop — of any task except those whose callback is still on the Python call
   stack — until `f` is done; it tests `f.done()` after every callback and then returns into the calling code.
 
+* `await coro()` runs the awaited coroutine inside the awaiting task: same task, same context, same stack variable.
+* asyncio cancellation: `Task.cancel()` on a task that is suspended (or has not started) makes it ready; the
+  `CancelledError` is thrown into the coroutine, at the point where it is suspended (at its very start if it never ran),
+  when the task runs next; a coroutine that catches it carries on as after any exception.  `CancelledError` is a
+  `BaseException` that is not an `Exception`.  A task whose coroutine ends with an exception is done.
+
 plumpy side, mirrored function by function:
 
 * `Process._process_scope`  → `Op.push p` / `Op.pop p` (the `assert Process.current() is self` is `Err.scopeAssertion`)
